@@ -8,7 +8,7 @@ import re
 
 from .. import fake_ai, models, run
 from ..fb import render_attrs
-from .common import (Case, HELD, VIOLATED, INCONCLUSIVE, TERM, bad_outcome, diag_list, files_text, h, rng)
+from .common import (Case, HELD, VIOLATED, INCONCLUSIVE, TERM, bad_outcome, diag_list, files_text, h, rng, endpoint_flake)
 
 ID = "C19"
 LEVEL = "fault_enumeration"
@@ -221,7 +221,7 @@ def execute(ctx, r, files, blocks, fault, desc):
     def bad(sig, summary):
         return Case(VIOLATED, key=key, nontrivial=nontrivial, sig=sig, summary=summary, witness=wit, sets=sets)
 
-    if res.cls == "wall-timeout":
+    if res.cls == "wall-timeout" or (endpoint_flake(res) and (not fault or fault[0] not in ("refused", "closed", "truncated"))):
         return Case(INCONCLUSIVE, key=key, summary="wall timeout (fault %s)" % fkind)
     if bad_outcome(res):
         return bad("C19/run-%s/%s" % (res.cls, fkind), "run ended %s: %s" % (res.cls, res.err_text()[:300]))
